@@ -14,8 +14,8 @@ import json
 from .core import *
 from .wirelib import range_bounds, const_of, ret_origin, _drop_partial_defs
 
-READS = {'read_u16': 2, 'read_u24': 3, 'read_u32': 4, 'read_u48': 6, 'read_u64': 8}
-WRITES = {'write_u16': 2, 'write_u24': 3, 'write_u32': 4, 'write_u48': 6, 'write_u64': 8}
+READS = {'read_u16': 2, 'read_u24': 3, 'read_u32': 4, 'read_u48': 6, 'read_u64': 8, 'read_i16': 2, 'read_i32': 4, 'read_i64': 8}
+WRITES = {'write_u16': 2, 'write_u24': 3, 'write_u32': 4, 'write_u48': 6, 'write_u64': 8, 'write_i16': 2, 'write_i32': 4, 'write_i64': 8}
 UNKNOWN = ('m', frozenset([('?',)]))
 
 
